@@ -143,11 +143,22 @@ def draw_convex(rng, family=None, n=None, constrained=True, bounds=True, sense=N
                     lin = t if lin is None else ["bin", "+", lin, t]
                 at = sum(cf * xs[nm] for nm, cf in coef.items())
                 if kind == "lin-eq":
+                    rows_ = [[c_["lincoef"].get(nm, 0.0) for nm in names] for c_ in cons if c_.get("active") and "lincoef" in c_]
+                    if rows_ and np.linalg.matrix_rank(np.array(rows_ + [[coef.get(nm, 0.0) for nm in names]])) <= np.linalg.matrix_rank(np.array(rows_)):
+                        continue  # would be linearly dependent on the constraints already active at x*: a degenerate KKT system
                     cons.append({"rel": ["rel", "==", lin, ["raw", at, "float"], "direct"], "g": ["bin", "-", lin, ["raw", at, "float"]],
-                                 "type": "eq", "active": True, "lam": q(rng, -2, 2)})
+                                 "type": "eq", "active": True, "lam": q(rng, -2, 2), "lincoef": dict(coef)})
                     n_active += 1
                 else:
                     active = rng.random() < 0.5 and n_active < N - 1
+                    if active:
+                        # an active inequality whose gradient is a combination of the gradients of the constraints already active
+                        # at x* (x[1] == c next to x[1] >= c) makes the KKT system degenerate: the direct SciPy run is then a
+                        # matter of round-off, which is not the situation the property speaks about - such a constraint is kept inactive
+                        rows_ = [[c_["lincoef"].get(nm, 0.0) for nm in names] for c_ in cons if c_.get("active") and "lincoef" in c_]
+                        new_ = [coef.get(nm, 0.0) for nm in names]
+                        if rows_ and np.linalg.matrix_rank(np.array(rows_ + [new_])) <= np.linalg.matrix_rank(np.array(rows_)):
+                            active = False
                     slack = 0.0 if active else 0.5 + abs(q(rng, 0, 2))
                     # vector-node spelling of the same affine function when it only involves the vector
                     lin_w = lin
@@ -175,7 +186,8 @@ def draw_convex(rng, family=None, n=None, constrained=True, bounds=True, sense=N
                         active, slack = True, 0.0
                         rel = ["rel", "<=", lin, ["raw", at, "float"], "direct"]
                         g = ["bin", "-", lin, ["raw", at, "float"]]
-                    cons.append({"rel": rel, "g": g, "type": "ineq", "active": active, "lam": (0.25 + abs(q(rng, 0, 2))) if active else 0.0, "vars": tuple(sub)})
+                    cons.append({"rel": rel, "g": g, "type": "ineq", "active": active, "lam": (0.25 + abs(q(rng, 0, 2))) if active else 0.0, "vars": tuple(sub),
+                                 "lincoef": dict(coef)})
                     n_active += int(active)
             else:
                 cvec = {nm: q(rng, -1, 1) for nm in names}
